@@ -19,7 +19,7 @@ import (
 )
 
 // Sigma is the adversarial string set; each is embedded as "a" + s + "b".
-var Sigma = []string{";", "'", "\"", "`", "'q'", "\"q\"", "\\\"", "--", "/*", "*/", "#", "\\", "\n", "$$", "$t$", " BEGIN ", " END; ", ";\n", "\nDELIMITER //\n", "\n-- atlas:delimiter x\n"}
+var Sigma = []string{";", "'", "\"", "`", "'q'", "\"q\"", "\\\"", "--", "/*", "*/", "#", "\\", "\n", "$$", "$t$", " BEGIN ", " END; ", ";\n", "\r\n", "\r", "\nDELIMITER //\n", "\n-- atlas:delimiter x\n"}
 
 var Slots = []string{"table", "column", "index", "check_name", "fk_name", "table_comment", "column_comment", "index_comment", "default", "enum_value", "check_literal"}
 
@@ -346,6 +346,8 @@ func classify(c Case, problems []string) string {
 		switch {
 		case c.Dialect == "mysql" && slot == "enum_value" && strings.Contains(v, "'"):
 			return "mysql-enum-value-quote-not-escaped"
+		case (c.Format == "goose" || c.Format == "dbmate") && strings.Contains(v, "\r\n"):
+			return "goose-dbmate-line-reader-drops-cr-before-lf"
 		case c.Format == "goose" && strings.Contains(v, ";\n"):
 			return "goose-line-ending-semicolon-inside-literal-splits"
 		case c.Dialect == "mysql" && strings.HasSuffix(slot, "_comment") && strings.Contains(v, "\"") &&
